@@ -1330,23 +1330,11 @@ def run(repo, chk):
         chk.fn(tg)
         s = unparse(tg)
         chk.expect(".nodes()" in s and ".links()" in s, "R-C14-5", "to_graph is built from wn.nodes() and wn.links()", loc(tg))
-        # end-node setters re-read the node from the registry
+        # end-node setters: that they store the registry's own node object and move exactly the old end's usage record is decided by running them (R-C14-5s
+        # below on all 8 configurations, and the edit history above, which also checks the identity of the stored node); the former pattern clauses (text of the
+        # assigned value, line order of remove_usage and the assignment) were dropped -- they fired on a shared helper for the two setters
         for which in ("start_node", "end_node"):
-            st = repo.func(BASE, "Link.%s" % which, kind="setter")
-            chk.fn(st)
-            asg = [a for a in walk(st) if isinstance(a, ast.Assign) and dotted(a.targets[0]) == "self._%s" % which]
-            chk.expect(bool(asg) and "self._node_reg[" in unparse(asg[0].value), "R-C14-5",
-                       "Link.%s setter stores the node object held by the registry" % which, loc(st),
-                       "the link must reference the registry's node (existing), not a foreign object")
-            us = usage_sites(st)
-            if asg and us and us[0][0] == "remove_usage":
-                chk.expect(us[0][4].lineno < asg[0].lineno, "R-C14-5", "Link.%s setter un-registers the old node BEFORE replacing self._%s" % (which, which), loc(st, asg[0]),
-                           "the key of remove_usage (%s_name) is read from the node object: once self._%s is replaced it names the new node and the old node keeps a stale usage record" % (which, which),
-                           expected="remove_usage(old name) precedes the assignment", found="assignment at line %d, remove_usage at line %d" % (asg[0].lineno, us[0][4].lineno))
-            chk.expect([u[0] for u in us] == ["remove_usage", "add_usage"] and
-                       us[0][3] is not None and ("%s_name" % which) in unparse(us[0][3]), "R-C14-5",
-                       "Link.%s setter un-registers the old %s and registers the new one" % (which, which), loc(st),
-                       found=[(u[0], unparse(u[3])) for u in us])
+            chk.fn(repo.func(BASE, "Link.%s" % which, kind="setter"))
         # R-C14-5s: both setters interpreted (sa/concrete.py, LinkWorld) on a pipe for every configuration of (start, end, new node) drawn from
         # two nodes: afterwards a node's usage record holds the link iff the link starts or ends there
         from ..concrete import ProgramError
